@@ -246,6 +246,266 @@ def shape_program(r):
     return {'sources': {'Main': text}, 'entry': 'Main', 'features': ['shape:' + '+'.join(sorted(set(kinds)))]}
 
 
+# ------------------------------------------------------------------ synthetic MIR programs (harness job kind 2)
+OPSYN = ['PLUS', 'MINUS', 'MUL', 'LT', 'LE', 'EQ', 'NE', 'XOR', 'LAND', 'DIV', 'MOD']
+
+
+def gen_mir_program(r):
+    """A random MIR program in the JSON encoding of mirstage_dump.rs: every statement form (also While / SingleIf /
+    Break / LateInit / StructInit / ClosureInit / closure calls, which the real front end never hands to these two
+    stages in this position), self tail calls in one or both branches of nested if-else, with and without return
+    collector, arguments forwarded / rotated / constant, call sites that agree or disagree on constants."""
+    nfun = r.range(2, 5)
+    ar = [r.range(0, 4) for _ in range(nfun)] + [0]
+    cnt = [10]
+    pref = {}
+
+    def fresh():
+        cnt[0] += 1
+        return cnt[0]
+
+    def lit():
+        return r.pick([['i', 0], ['i', 1], ['i', 2], ['i', 7], ['i', -1], ['j', 0], ['j', 1], ['s', 5], ['s', 6]])
+
+    def expr(scope):
+        if scope and r.chance(3, 5):
+            return ['v', r.pick(scope), 0]
+        return lit()
+
+    def call_args(callee, scope, params=None, self_call=False):
+        args = []
+        for j in range(ar[callee] if callee < len(ar) else 2):
+            c = r.below(10)
+            if self_call and params and c < 3 and j < len(params):
+                args.append(['v', params[j], 0])                     # handed on at its own position
+            elif self_call and params and c < 5:
+                args.append(['v', r.pick(params), 0])                # another parameter: rotation / hand-over
+            elif c < 8 and not self_call:
+                args.append(pref.setdefault((callee, j), lit()))      # the constant this position usually gets
+            else:
+                args.append(expr(scope))
+        return args
+
+    def stmts(scope, depth, n, fi, params, in_loop=False):
+        out = []
+        scope = list(scope)
+        for _ in range(n):
+            k = r.below(14)
+            if k < 3:
+                x = fresh()
+                out.append(['bin', x, r.pick(OPSYN), expr(scope), expr(scope)])
+                scope.append(x)
+            elif k == 3:
+                x = fresh()
+                out.append(['not', x, expr(scope)])
+                scope.append(x)
+            elif k == 4:
+                x = fresh()
+                out.append(['prim', x, r.pick(['idx', 'isptr', 'cast']), 2, r.below(3), expr(scope)])
+                scope.append(x)
+            elif k in (5, 6):
+                callee = r.pick(list(range(nfun)) + [90, 91])
+                x = fresh() if r.chance(2, 3) else None
+                na = ar[callee] if callee < nfun else 2
+                out.append(['call', ['fn', callee, [0] * na, 0], call_args(callee, scope, params, callee == fi), 0, x])
+                if x is not None:
+                    scope.append(x)
+            elif k == 7 and depth > 0:
+                c = expr(scope)
+                s1, sc1 = stmts(scope, depth - 1, r.range(0, 2), fi, params, in_loop)
+                s2, sc2 = stmts(scope, depth - 1, r.range(0, 2), fi, params, in_loop)
+                fas = []
+                for _q in range(r.range(0, 2)):
+                    x = fresh()
+                    fas.append([x, 0, expr(sc1), expr(sc2)])
+                out.append(['if', c, s1, s2, fas])
+                scope.extend(q[0] for q in fas)
+            elif k == 8 and depth > 0:
+                lv = [fresh() for _q in range(r.range(1, 2))]
+                inner = scope + lv
+                g = fresh()
+                body = [['bin', g, 'LT', ['v', lv[0], 0], ['i', r.range(1, 3)]],
+                        ['sif', ['v', g, 0], True, [['brk', expr(inner + [g])]]]]
+                more, sc = stmts(inner + [g], depth - 1, r.range(0, 2), fi, params, True)
+                n1 = fresh()
+                body += more + [['bin', n1, 'PLUS', ['v', lv[0], 0], ['i', 1]]]
+                lvs = [[lv[0], 0, ['i', 0], ['v', n1, 0]]] + [[v, 0, expr(scope), expr(sc + [n1])] for v in lv[1:]]
+                bc = fresh() if r.chance(2, 3) else None
+                out.append(['while', lvs, body, None if bc is None else [bc, 0]])
+                if bc is not None:
+                    scope.append(bc)
+            elif k == 9:
+                x = fresh()
+                out.append(['decl', x, 0])
+                out.append(['assign', x, expr(scope)])
+                scope.append(x)
+            elif k == 10:
+                x = fresh()
+                out.append(['struct', x, 2, [expr(scope) for _q in range(r.range(1, 3))]])
+                scope.append(x)
+            elif k == 11:
+                x = fresh()
+                out.append(['closure', x, 3, r.below(nfun), 4, expr(scope)])
+                scope.append(x)
+                if r.chance(1, 2):
+                    y = fresh()
+                    out.append(['call', ['var', x, 3], [expr(scope) for _q in range(r.range(0, 2))], 0, y])
+                    scope.append(y)
+            elif k == 12 and in_loop and r.chance(1, 3):
+                out.append(['sif', expr(scope), r.chance(1, 2), [['brk', expr(scope)]]])
+        return out, scope
+
+    def tail(scope, depth, fi, params, unit):
+        pre, sc = stmts(scope, 1, r.range(0, 2), fi, params)
+        k = r.below(10)
+        if k < 4 and depth > 0:
+            c = expr(sc)
+            s1, e1 = tail(sc, depth - 1, fi, params, unit)
+            s2, e2 = tail(sc, depth - 1, fi, params, unit)
+            x = fresh()
+            fas = [[x, 0, e1, e2]]
+            if r.chance(1, 4):
+                fas.insert(r.below(2), [fresh(), 0, lit(), lit()])
+            return pre + [['if', c, s1, s2, fas]], ['v', x, 0]
+        if k < 8:
+            if unit:
+                return pre + [['call', ['fn', fi, [0] * ar[fi], 0], call_args(fi, sc, params, True), 0, None]], ['i', 0]
+            x = fresh()
+            return pre + [['call', ['fn', fi, [0] * ar[fi], 0], call_args(fi, sc, params, True), 0, x]], ['v', x, 0]
+        return pre, (['i', 0] if unit else expr(sc))
+
+    funcs = []
+    for fi in range(nfun):
+        params = [fresh() for _ in range(ar[fi])]
+        unit = r.chance(1, 3)
+        body, ret = tail(params, r.range(0, 2), fi, params, unit)
+        funcs.append({'name': fi, 'params': params, 'atys': [0] * ar[fi], 'rty': 0, 'body': body, 'ret': ret})
+    mbody = []
+    last = ['i', 0]
+    for _ in range(r.range(2, 6)):
+        callee = r.below(nfun)
+        x = fresh()
+        mbody.append(['call', ['fn', callee, [0] * ar[callee], 0], call_args(callee, [], None, False), 0, x])
+        last = ['v', x, 0]
+    funcs.append({'name': nfun, 'params': [], 'atys': [], 'rty': 0, 'body': mbody, 'ret': last})
+    return funcs
+
+
+def synthetic(ck, tier, seed):
+    rng = Rng(seed ^ 0x51A7)
+    n = 300 if tier == 'quick' else 5000
+    progs = [gen_mir_program(rng.fork()) for _ in range(n)]
+    jobs = [{'id': i, 'program': p, 'stage': 'both'} for i, p in enumerate(progs)]
+    chunks = [jobs[i::NCPU] for i in range(NCPU)]
+
+    def run_chunk(c):
+        if not c:
+            return []
+        rc, out = vh(['mirstage-dump'], input='\n'.join(json.dumps(j) for j in c) + '\n', timeout=1200)
+        return [json.loads(l) for l in out.splitlines() if l.startswith('{')]
+    res = {}
+    with concurrent.futures.ThreadPoolExecutor(max_workers=NCPU) as ex:
+        for part in ex.map(run_chunk, chunks):
+            for r in part:
+                if isinstance(r.get('id'), int):
+                    res[r['id']] = r
+    st = {'programs': n, 'ran': 0, 'panics': 0, 'cpe_model_eq_real': 0, 'cpe_wf_prog': 0, 'cpe_parameters_dropped': 0, 'cpe_constants': 0,
+          'cpe_seeded_variant_differs': 0, 'cpe_functions_unoptimizable': 0, 'cpe_inst': [0, 0, 0, 0], 'tail_functions': 0,
+          'tail_model_eq_real': 0, 'tail_changed': 0, 'tail_changed_both_branches': 0, 'tail_changed_wf': 0, 'tail_changed_with_discard': 0,
+          'tail_seeded_variant_differs': 0, 'tail_inst': [0, 0, 0, 0], 'inst_diff_on_wf_input': 0}
+    kinds = {}
+    usable = []
+    for i in range(n):
+        r = res.get(i)
+        if r is None or 'harness_panic' in r or 'error' in r:
+            ck.obligation('mirstage-dump(synthetic %d)' % i, False, json.dumps(r)[:300])
+            continue
+        if 'panic' in r or 'tailrec' not in r or any('panic' in t for t in r.get('tailrec', [])):
+            st['panics'] += 1
+            ck.property_failure('a MIR stage panicked on a synthetic MIR program: ' + str(r.get('panic'))[:200], {'mir_program': progs[i]},
+                                how='vh mirstage-dump job {"program": .., "stage": "both"}')
+            continue
+        st['ran'] += 1
+        for f in progs[i]:
+            stmt_kinds(f['body'], kinds)
+        usable.append(i)
+    nshard = max(1, min(NCPU, len(usable)))
+    shards = [usable[s::nshard] for s in range(nshard)]
+    cjobs = []
+    for si, idxs in enumerate(shards):
+        parts, terms = [], []
+        for i in idxs:
+            d, t = gallina_job(res[i], i)
+            parts.append(d)
+            terms.append(t)
+        cjobs.append(('c01mir_syn_%d' % si, HEADER + '\n'.join(parts) + '\nEval vm_compute in %s.\n' % g_list(terms)))
+    outs = coq_eval_many(cjobs, timeout=1500) if usable else []
+    for si, (rc, o) in enumerate(outs):
+        resl = coq_result(o) if rc == 0 else None
+        rows = None
+        if resl is not None:
+            try:
+                rows = parse_nested(resl)
+            except Exception:
+                rows = None
+        if rows is None or len(rows) != len(shards[si]):
+            ck.obligation('model-evaluation(C01mir synthetic shard %d)' % si, False, o[-600:])
+            continue
+        for i, job in zip(shards[si], rows):
+            r = res[i]
+            where = {'mir_program': progs[i]}
+            cpe, icpe, itail, tails = job[0], job[1], job[2], job[3:]
+            differs, wfp, seeded_eq, nfun, nlose, ndrop, nconst, nunopt = cpe
+            ck.case(['syn', progs[i]], ndrop > 0)
+            st['cpe_model_eq_real'] += 1 - (1 if differs else 0)
+            st['cpe_wf_prog'] += wfp
+            st['cpe_parameters_dropped'] += ndrop
+            st['cpe_constants'] += nconst
+            st['cpe_functions_unoptimizable'] += nunopt
+            st['cpe_seeded_variant_differs'] += 1 - seeded_eq
+            for j in range(4):
+                st['cpe_inst'][j] += icpe[j]
+                st['tail_inst'][j] += itail[j]
+            if differs:
+                ck.disagree('C01mir.ConstParam.const_param_elim vs rewrite_sources on a synthetic MIR program', where,
+                            'const_param_elim of the program', r['cpe']['after'], how='coqc work/c01mir_syn_%d.v (job%d)' % (si, i))
+            all_wft = True
+            for t, row in zip(r['tailrec'], tails):
+                tdiff, changed, wft, seeded_eq_t, nd, rconst = row
+                st['tail_functions'] += 1
+                st['tail_model_eq_real'] += 1 - tdiff
+                if changed:
+                    st['tail_changed'] += 1
+                    st['tail_changed_wf'] += wft
+                    st['tail_changed_with_discard'] += 1 if nd else 0
+                    st['tail_seeded_variant_differs'] += 1 - seeded_eq_t
+                    st['tail_changed_both_branches'] += 1 if t.get('fresh') else 0
+                    all_wft = all_wft and bool(wft)
+                if tdiff:
+                    ck.disagree('C01mir.TailRec.tail_rec_rewrite vs optimize_function_by_tailrec_rewrite on a synthetic MIR function',
+                                dict(where, function=t.get('fname')), 'tail_rec_rewrite of the function', t.get('after'),
+                                how='coqc work/c01mir_syn_%d.v (job%d)' % (si, i))
+            # a behavioural difference on input that satisfies the hypotheses would contradict the theorems
+            if (icpe[2] and wfp) or (itail[2] and all_wft):
+                st['inst_diff_on_wf_input'] += 1
+                ck.property_failure('a MIR stage changes behaviour on a synthetic MIR program that satisfies the side conditions of the theorem '
+                                    '(Gallina semantics)', where, observed={'cpe_instances': icpe, 'tailrec_instances': itail})
+    st['stmt_kinds'] = kinds
+    ck.extra_cov['mir_synthetic'] = st
+    for k, v in st.items():
+        if isinstance(v, int):
+            ck.count('mir:syn:' + k, v)
+    ck.obligation('C01mir synthetic tie ran', st['ran'] > 0 and st['tail_changed'] > 0, '%d programs' % st['ran'])
+    print('C01mir synthetic MIR: programs=%d ran=%d panics=%d | cpe: model=real %d wf_prog:%d dropped:%d (const %d) unoptimizable:%d '
+          'seeded-variant-differs:%d instances[oof,same,diff,done]=%s | tailrec: functions=%d model=real:%d rewritten:%d (both-branches %d, discard %d) '
+          'wf_tail:%d seeded-variant-differs:%d instances=%s | differences on input satisfying the hypotheses: %d'
+          % (st['programs'], st['ran'], st['panics'], st['cpe_model_eq_real'], st['cpe_wf_prog'], st['cpe_parameters_dropped'], st['cpe_constants'],
+             st['cpe_functions_unoptimizable'], st['cpe_seeded_variant_differs'], st['cpe_inst'], st['tail_functions'], st['tail_model_eq_real'],
+             st['tail_changed'], st['tail_changed_both_branches'], st['tail_changed_with_discard'], st['tail_changed_wf'],
+             st['tail_seeded_variant_differs'], st['tail_inst'], st['inst_diff_on_wf_input']))
+    print('C01mir synthetic MIR: statement forms: %s' % json.dumps(kinds, sort_keys=True))
+
+
 def programs(tier, seed):
     from checks.c01_loop import gen_perm_program
     rng = Rng(seed ^ 0xC01312)
@@ -447,6 +707,7 @@ def mir(ck, tier, seed):
              st['tail_functions'], st['tail_model_eq_real'], st['tail_changed'], st['tail_changed_both_branches'], st['tail_changed_with_discard'],
              st['tail_changed_wf'], st['tail_seeded_variant_differs'], st['tail_inst'], st['runs_equal'], st['runs_compared']))
     print('C01mir: statement forms seen in the real programs: %s' % json.dumps(kinds, sort_keys=True))
+    synthetic(ck, tier, seed)
     return ok
 
 
